@@ -291,7 +291,7 @@ META = {
                    "afterwards the invariant Inv (shape = id counts, unique ids, id->position lookups exact, one metadata entry per id, well-formed "
                    "sparse arrays) is checked on receiver, arguments and every returned table, and every accessor (data, get_value_by_ids, iter, "
                    "iter_pairwise, nonzero, sum, nnz, density, shape, index/exists) is proved to describe the same dense term matrix. Plus all "
-                   "2-operation sequences over a reduced alphabet.",
+                   "2-operation sequences over a reduced alphabet (thorough: all 3-operation sequences over 8 operations). The alphabet includes chain / swap / colliding renames and the biom.concat wrapper.",
     'encoded': {'biom/table.py': ['filter', 'remove_empty', 'head', 'sort', 'sort_order', 'transpose', 'copy', 'update_ids', 'add_metadata',
                                   'del_metadata', 'transform', 'norm', 'pa', 'rankdata', 'subsample', 'collapse', 'partition', 'merge',
                                   '_fast_merge', 'concat', 'align_to', 'data', 'get_value_by_ids', 'iter', 'iter_data', 'iter_pairwise',
